@@ -475,7 +475,77 @@ class LinearCombination(Expression):
 # traversal.
 
 
-class ElementwisePower(Expression):
+class _ElementwiseArithmetic:
+    """Element-wise operators for vector-valued nodes (``x ** k``, ``f(x)``).
+
+    ``ElementwisePower`` and ``ElementwiseUnary`` hold one value per element, so the
+    scalar operators inherited from ``Expression`` (which would wrap the whole node in
+    a single ``BinaryOp`` / ``UnaryOp`` / ``Constraint``) do not apply to them.
+    Arithmetic, comparisons and dot products go through ``VectorExpression`` instead,
+    exactly as they do for ``x + 1``.
+    """
+
+    __slots__ = ()
+
+    # Tell NumPy to defer to our reflected operators (as VectorExpression does)
+    __array_ufunc__ = None
+
+    def _as_vector_expression(self) -> "VectorExpression":
+        return VectorExpression(list(self))  # type: ignore[call-overload]
+
+    def __len__(self) -> int:
+        return self.size  # type: ignore[attr-defined]
+
+    def __add__(self, other):  # type: ignore[no-untyped-def]
+        return self._as_vector_expression() + other
+
+    def __radd__(self, other):  # type: ignore[no-untyped-def]
+        return self._as_vector_expression().__radd__(other)
+
+    def __sub__(self, other):  # type: ignore[no-untyped-def]
+        return self._as_vector_expression() - other
+
+    def __rsub__(self, other):  # type: ignore[no-untyped-def]
+        return self._as_vector_expression().__rsub__(other)
+
+    def __mul__(self, other):  # type: ignore[no-untyped-def]
+        return self._as_vector_expression() * other
+
+    def __rmul__(self, other):  # type: ignore[no-untyped-def]
+        return self._as_vector_expression().__rmul__(other)
+
+    def __truediv__(self, other):  # type: ignore[no-untyped-def]
+        return self._as_vector_expression() / other
+
+    def __rtruediv__(self, other):  # type: ignore[no-untyped-def]
+        return self._as_vector_expression().__rtruediv__(other)
+
+    def __neg__(self):  # type: ignore[no-untyped-def]
+        return -self._as_vector_expression()
+
+    def __pow__(self, other):  # type: ignore[no-untyped-def]
+        return self._as_vector_expression() ** other
+
+    def __le__(self, other):  # type: ignore[no-untyped-def]
+        return self._as_vector_expression() <= other
+
+    def __ge__(self, other):  # type: ignore[no-untyped-def]
+        return self._as_vector_expression() >= other
+
+    def eq(self, other):  # type: ignore[no-untyped-def]
+        return self._as_vector_expression().eq(other)
+
+    def dot(self, other):  # type: ignore[no-untyped-def]
+        return self._as_vector_expression().dot(other)
+
+    def __matmul__(self, other):  # type: ignore[no-untyped-def]
+        return self._as_vector_expression() @ other
+
+    def __rmatmul__(self, other):  # type: ignore[no-untyped-def]
+        return self._as_vector_expression().__rmatmul__(other)
+
+
+class ElementwisePower(_ElementwiseArithmetic, Expression):
     """Element-wise power of a vector: x[i] ** k for each element.
 
     This is a vector expression representing x ** k element-wise.
@@ -602,7 +672,7 @@ class VectorPowerSum(Expression):
         return f"VectorPowerSum({self.vector.name}, {self.power})"
 
 
-class ElementwiseUnary(Expression):
+class ElementwiseUnary(_ElementwiseArithmetic, Expression):
     """Element-wise unary operation on a vector: f(x[i]) for each element.
 
     This is a vector expression representing f(x) element-wise.
@@ -1555,6 +1625,8 @@ def _vector_constraint(
         left_exprs = list(left._expressions)
 
     # Handle right operand
+    if isinstance(right, (ElementwisePower, ElementwiseUnary)):
+        right = VectorExpression(list(right))
     if isinstance(right, (int, float, np.number)):
         # Scalar broadcast - create constraints directly
         return [_make_constraint(expr, sense, right) for expr in left_exprs]
@@ -1692,14 +1764,14 @@ def _vector_binary_op(
                 right_shape=right.size,
             )
         right_exprs = list(right._expressions)
-    elif isinstance(right, ElementwisePower):
+    elif isinstance(right, (ElementwisePower, ElementwiseUnary)):
         if right.size != len(left_exprs):
             raise DimensionMismatchError(
                 operation=f"vector {op}",
                 left_shape=len(left_exprs),
                 right_shape=right.size,
             )
-        right_exprs = list(right)  # ElementwisePower is iterable
+        right_exprs = list(right)  # element-wise nodes are iterable
     elif isinstance(right, (np.ndarray, list)):
         arr = np.asarray(right)
         if arr.ndim != 1:
